@@ -122,7 +122,7 @@ def check(case, rec):
         trimmed = any(a[0] == 'trim' for a in applied)      # a trimmed topology covers a polygonal part of the box: the pointwise identities, unit outward normals and the divergence theorem still hold on it
         got_int = float(topo.integrate(f.nutils(geom) * function.J(geom), degree=14)) if not trimmed else want_int
         if trimmed: rec.label('trimmed')
-        if abs(got_int - want_int) > 1e-10 * (1 + abs(want_int)):
+        if abs(got_int - want_int) > (1e-10 if case.get('gbasis') is None else 1e-7) * (1 + abs(want_int)):      # a projected geometry carries the tolerance of the projection solve
             raise Violation('integral', f'{what}: integral of f J = {got_int!r}, independent quadrature over the unit box {want_int!r}', where='integral:' + r['kind'] + ':' + r['geom']['kind'])
         # boundary: unit normal, surface gradient, divergence theorem
         if r['kind'] != 'periodic':
